@@ -120,6 +120,7 @@ class EditRun:
                         continue
                 self.ops.append(op)
                 self.site = self.site_of(op)
+                self.site_flags = self.flags_of(op)
                 try:
                     ctx = pl.pre_op(op)
                     try:
@@ -186,9 +187,97 @@ class EditRun:
         except Exception:
             return {}
 
+    def flags_of(self, op):
+        """Named input predicates of a request, computed on the PRE-op tree by harness code (used only to identify
+        known findings by call site; never to decide a violation)."""
+        import ast
+        from .model import resolve
+        from .ops import harness_ast, node_cat
+        flags = set()
+        try:
+            path = [tuple(p) for p in op.get('path', [])]
+            tree = self.root.a
+            chain = [tree]
+            node = tree
+            for i in range(len(path)):
+                node = resolve(tree, path[:i + 1])
+                if node is None:
+                    return flags
+                chain.append(node)
+            tgt = chain[-1]
+            field = op.get('field')
+            for i, n in enumerate(chain):
+                if isinstance(n, ast.arguments) and i > 0 and isinstance(chain[i - 1], ast.Lambda):
+                    flags.add('in_lambda_args')
+                if isinstance(n, ast.pattern):
+                    flags.add('in_pattern')
+                if isinstance(n, (ast.JoinedStr,)):
+                    flags.add('in_fstring')
+            if isinstance(tgt, ast.Lambda) and field in ('args', 'posonlyargs', 'kwonlyargs', 'vararg', 'kwarg', '_all'):
+                flags.add('in_lambda_args')
+            if isinstance(tgt, (ast.Try, ast.TryStar)):
+                flags.add('try_container')
+                if not tgt.handlers:
+                    flags.add('try_no_handlers')
+                if field in ('handlers',):
+                    flags.add('try_handlers_field')
+                if field in ('orelse',):
+                    flags.add('try_orelse_field')
+            if isinstance(tgt, ast.ExceptHandler) and op.get('k') in ('remove', 'cut', 'replace'):
+                flags.add('try_handlers_field')
+            ctxs = [getattr(n, 'ctx', None) for n in chain[-2:]]
+            if any(isinstance(c, ast.Store) for c in ctxs):
+                flags.add('store_ctx')
+            if any(isinstance(c, ast.Del) for c in ctxs):
+                flags.add('del_ctx')
+            if isinstance(tgt, ast.Starred) or (len(chain) > 1 and isinstance(chain[-2], ast.Starred)):
+                flags.add('starred')
+            if isinstance(tgt, ast.Constant) and len(chain) > 1 and isinstance(chain[-2], ast.MatchValue):
+                flags.add('matchvalue_constant')
+            if isinstance(tgt, ast.MatchValue):
+                flags.add('matchvalue')
+            if isinstance(tgt, (ast.BoolOp, ast.Compare)) or (len(chain) > 1 and isinstance(chain[-2], (ast.BoolOp, ast.Compare)) and op.get('k') in ('replace',)):
+                flags.add('boolop_or_compare_operand')
+            if isinstance(tgt, ast.Module) or (len(chain) == 2 and isinstance(tgt, ast.stmt)):
+                flags.add('module_level_stmt')
+                body = tree.body
+                if body and (tgt is body[-1] or isinstance(tgt, ast.Module)):
+                    flags.add('touches_last_module_stmt')
+            if field == '_body' or (isinstance(tgt, (ast.FunctionDef, ast.ClassDef, ast.AsyncFunctionDef, ast.Module)) and field == 'body'):
+                flags.add('docstring_capable_body')
+            if isinstance(tgt, (ast.Global, ast.Nonlocal)):
+                flags.add('global_nonlocal')
+            code = op.get('code') or {}
+            if code.get('form') not in (None, 'none') and code.get('text') is not None:
+                a = harness_ast(code.get('cat', 'expr'), code['text'])
+                if a is not None:
+                    for n in ast.walk(a):
+                        if isinstance(n, (ast.Yield, ast.YieldFrom)):
+                            flags.add('code_has_yield')
+                    if isinstance(a, ast.Lambda):
+                        flags.add('code_is_lambda')
+                    if isinstance(a, ast.Starred):
+                        flags.add('code_is_starred')
+                    if isinstance(a, ast.arg) and a.annotation is not None:
+                        flags.add('code_is_annotated_arg')
+                    if isinstance(a, (ast.IfExp, ast.NamedExpr)):
+                        flags.add('code_low_precedence')
+                want = None
+                if field is not None and not isinstance(tgt, type(None)):
+                    from .ops import field_cat
+                    want = field_cat(tgt, field) if not str(field).startswith('_') else None
+                elif op.get('k') == 'replace' and len(chain) > 1:
+                    want = node_cat(tgt, chain[-2], path[-1][0])
+                if want and code.get('cat') and want != code.get('cat') and not (want == 'constant'):
+                    flags.add('code_cross_category')
+        except Exception:
+            pass
+        return flags
+
     def site_full(self, op):
         from .ops import harness_ast
         s = dict(self.site or {})
+        s['flags'] = sorted(self.site_flags or ())
         code = op.get('code') or {}
         if code.get('text') is not None and code.get('form') != 'none':
             a = harness_ast(code.get('cat', 'expr'), code['text'])
